@@ -96,7 +96,7 @@ Lemma quote_trait_skeleton : forall t c ts,
     quote_trait t c = Ok ts -> exists e, ts = inst e (skeleton_of (c_kind c) (c_fallible c)).
 Proof.
   intros t c ts. unfold quote_trait.
-  destruct (struct_post_init (tv_data t) c) as [post| | |]; cbn [bind]; try discriminate.
+  destruct (if is_some (tc_qret (c_core c)) then Ok None else struct_post_init (tv_data t) c) as [post| | |]; cbn [bind]; try discriminate.
   destruct (c_kind c) eqn:Hk; destruct (c_fallible c) eqn:Hf; cbn [is_from is_intoish c_kind c_fallible skeleton_of];
     repeat match goal with
            | |- context [bind ?r _] => destruct r; cbn [bind]; try discriminate
